@@ -5,7 +5,7 @@ set -u
 NAME="$1"; PROP="$2"; PATCH="$(realpath "$3")"; DEMO="$(realpath "$4")"; EXTRA="${5:-}"
 OUT=/verif/seeded/$NAME; mkdir -p "$OUT"
 cp "$PATCH" "$OUT/patch.diff" 2>/dev/null; cp "$DEMO" "$OUT/demo.py" 2>/dev/null
-WT=$(mktemp -d /tmp/seedwt.XXXXXX); rmdir "$WT"
+git -C /repo worktree remove --force /tmp/mut/$PROP 2>/dev/null; mkdir -p /tmp/mut; WT=/tmp/mut/$PROP   # the demos check this very path
 git -C /repo worktree add --detach "$WT" HEAD -q || exit 3
 PP="$WT${EXTRA:+:$EXTRA}"
 ( cd "$OUT" && PYTHONPATH="$PP" timeout 300 /venv/bin/python demo.py > "$OUT/demo_clean.log" 2>&1 ); RC_CLEAN=$?
